@@ -2027,10 +2027,13 @@ impl Machine {
     #[inline(always)]
     pub(crate) fn file_size(&mut self) {
         if let Some(file) = self.machine_st.value_to_str_like(self.deref_register(1)) {
-            let len = Number::arena_from(
-                fs::metadata(&*file.as_str()).unwrap().len(),
-                &mut self.machine_st.arena,
-            );
+            // the file may have been removed since the caller looked.
+            let Ok(metadata) = fs::metadata(&*file.as_str()) else {
+                self.machine_st.fail = true;
+                return;
+            };
+
+            let len = Number::arena_from(metadata.len(), &mut self.machine_st.arena);
 
             match len {
                 Number::Fixnum(n) => self
@@ -2051,9 +2054,8 @@ impl Machine {
         if let Some(file) = self.machine_st.value_to_str_like(self.deref_register(1)) {
             let file_str = file.as_str();
 
-            if !std::path::Path::new(&*file_str).exists()
-                || !fs::metadata(&*file_str).unwrap().is_file()
-            {
+            // one look at the file: it may be removed between two.
+            if !fs::metadata(&*file_str).is_ok_and(|metadata| metadata.is_file()) {
                 self.machine_st.fail = true;
             }
         } else {
@@ -2066,9 +2068,7 @@ impl Machine {
         if let Some(dir) = self.machine_st.value_to_str_like(self.deref_register(1)) {
             let dir_str = dir.as_str();
 
-            if !std::path::Path::new(&*dir_str).exists()
-                || !fs::metadata(&*dir_str).unwrap().is_dir()
-            {
+            if !fs::metadata(&*dir_str).is_ok_and(|metadata| metadata.is_dir()) {
                 self.machine_st.fail = true;
             }
         } else {
